@@ -401,7 +401,7 @@ class ExponentialCategorical(DPMechanism):
 
             if first_constant_value is None:
                 first_constant_value = constant_value
-            elif not np.isclose(constant_value, first_constant_value):
+            elif not np.isclose(constant_value, first_constant_value, rtol=1e-12, atol=0):  # up to summation order
                 balanced_tree = False
 
         # If the tree is balanced, we can eliminate the doubling factor
